@@ -157,11 +157,14 @@ void rf_wavheader_init(rf_wavheader_t *wh, int sfreq, int num_channels,
 	memset(wh, 0, sizeof(*wh));
 
 	memcpy(wh->chunk_id, riff, 4);
-	wh->chunk_size = 12 + 18 + 12 + 8; // chunks: riff, fmt, fact, data
 	memcpy(wh->format, wave, 4);
 
 	memcpy(wh->fmt_chunk_id, fmt, 4);
 	wh->fmt_chunk_size = (format == RF_WAVHEADER_FLOAT ? 18 : 16);
+	// bytes following chunk_size: "WAVE", fmt chunk, optional fact chunk,
+	// data chunk header
+	wh->chunk_size = 4 + (8 + wh->fmt_chunk_size) +
+			 (format == RF_WAVHEADER_FLOAT ? 12 : 0) + 8;
 	wh->audio_format = (format == RF_WAVHEADER_FLOAT ? 3 : 1);
 	wh->num_channels = num_channels;
 	wh->sample_rate = sfreq;
